@@ -157,6 +157,68 @@ func init() {
 		w.Line("/-- serveHTTP's write-out aborts the connection when copying the response body failed -/")
 		w.Line("def muxAbortsOnCopyError : Bool := %s", Bool(aborts))
 
+		// ---- update histories: a path's limit is written once, by newMuxPath, from the path's own spec value; reload
+		// publishes an instance that carries the new spec
+		mf, err := r.File("pkg/object/httpserver/mux.go")
+		if err != nil {
+			return err
+		}
+		kvs, kvOK, assigns := 0, false, 0
+		ast.Inspect(mf, func(x ast.Node) bool {
+			switch y := x.(type) {
+			case *ast.KeyValueExpr:
+				if id, ok := y.Key.(*ast.Ident); ok && id.Name == "clientMaxBodySize" {
+					kvs++
+					kvOK = r.Src(y.Value) == "path.ClientMaxBodySize"
+				}
+			case *ast.AssignStmt:
+				for _, l := range y.Lhs {
+					if se, ok := l.(*ast.SelectorExpr); ok && se.Sel.Name == "clientMaxBodySize" {
+						assigns++
+					}
+				}
+			case *ast.IncDecStmt:
+				if se, ok := y.X.(*ast.SelectorExpr); ok && se.Sel.Name == "clientMaxBodySize" {
+					assigns++
+				}
+			}
+			return true
+		})
+		nmp, err := r.Func("pkg/object/httpserver/mux.go", "", "newMuxPath")
+		inNew := 0
+		if err == nil {
+			ast.Inspect(nmp.Body, func(x ast.Node) bool {
+				if kv, ok := x.(*ast.KeyValueExpr); ok {
+					if id, ok := kv.Key.(*ast.Ident); ok && id.Name == "clientMaxBodySize" {
+						inNew++
+					}
+				}
+				return true
+			})
+		}
+		w.Line("/-- `clientMaxBodySize` of a MuxPath is set exactly once, in newMuxPath's literal, to `path.ClientMaxBodySize`; no assignment anywhere -/")
+		w.Line("def pathLimitWrittenOnlyByNewMuxPath : Bool := %s", Bool(kvs == 1 && kvOK && assigns == 0 && inNew == 1))
+		rl, err := r.Func("pkg/object/httpserver/mux.go", "mux", "reload")
+		if err != nil {
+			return err
+		}
+		newSpec, stores, pathsViaNew := false, 0, r.CountCalls(rl.Body, "newMuxPath")
+		ast.Inspect(rl.Body, func(x ast.Node) bool {
+			if cl, ok := x.(*ast.CompositeLit); ok && r.Src(cl.Type) == "muxInstance" {
+				for _, e := range cl.Elts {
+					if kv, ok := e.(*ast.KeyValueExpr); ok && r.Src(kv.Key) == "spec" && r.Src(kv.Value) == "spec" {
+						newSpec = true
+					}
+				}
+			}
+			if ce, ok := x.(*ast.CallExpr); ok && r.Src(ce.Fun) == "m.inst.Store" {
+				stores++
+			}
+			return true
+		})
+		w.Line("/-- reload: `&muxInstance{… spec: spec …}`, every path built by newMuxPath, one `m.inst.Store` -/")
+		w.Line("def reloadPublishesNewSpec : Bool := %s", Bool(newSpec && stores == 1 && pathsViaNew == 1))
+
 		// ---- ServerPool.buildResponse / doHandle
 		bd, err := r.Func("pkg/filters/proxy/pool.go", "ServerPool", "buildResponse")
 		if err != nil {
